@@ -55,6 +55,13 @@ def one(ctx: Ctx, cs, pname, over, core=True, max_sets=24):
         single = [c for c in cutsets if len(c) == 1]
         cutsets = [[]] + rng.sample(single, min(2, len(single))) + (rng.sample(multi, 1) if multi else [])
         ctx.cls('long_text (cut sets thinned)')
+    # whenever two neighbouring rows are the same barline (an empty measure between unnumbered barlines), one cut goes between them:
+    # the earlier fragment ends with that row and the later one begins with its twin
+    twins = [b for b in bars if b - 1 in bars and src_lines[b] == src_lines[b - 1]]
+    for b in twins[:2]:
+        if [b] not in cutsets:
+            cutsets.append([b])
+            ctx.mon('cuts_between_identical_barline_rows')
     ref_snap = kpx.snapshot(d)
     full = sc.full
     for ci, cuts in enumerate(cutsets):
@@ -199,7 +206,7 @@ def run(ctx: Ctx):
                 'fragment i taken from the abstract cut. Non-trivial = inner fragment of a >= 3-fragment cut whose pair reproduced its data '
                 'lines; distinct by (document, cut set, separator, fragment).')
     ctx.assumptions = ['cuts are made before barline rows only (the property\'s domain)']
-    n = 36 if ctx.tier == 'quick' else 200
+    n = 2 * len(MC.profiles(ctx.tier)) if ctx.tier == 'quick' else 200
     i = 0
     for cs in cases(ctx, 'c07', n):
         pname, over = MC.profiles(ctx.tier)[i % len(MC.profiles(ctx.tier))]
